@@ -244,11 +244,15 @@ var vfC17Extended = append(append([]string{}, vfC17Alphabet...), "x-gzip", "zstd
 func vfC17Header(x *venum.X, label string, maxLen int, alphabet []string) string {
 	var toks []string
 	for i := 0; i < maxLen; i++ {
-		c := x.Choose(len(alphabet)+1, fmt.Sprintf("%s[%d]", label, i))
-		if c == len(alphabet) {
+		ab := alphabet
+		if i >= 2 && len(ab) > len(vfC17Alphabet) {
+			ab = vfC17Alphabet // a third token comes from the base alphabet (look-alikes are covered in positions 0 and 1)
+		}
+		c := x.Choose(len(ab)+1, fmt.Sprintf("%s[%d]", label, i))
+		if c == len(ab) {
 			break
 		}
-		toks = append(toks, alphabet[c])
+		toks = append(toks, ab[c])
 	}
 	return strings.Join(toks, ",")
 }
@@ -429,6 +433,13 @@ func vfC17Do(h http.Handler, src vfC17Source, custom, standard string, sendCusto
 // two requests in which B is atomic; both share the server, its codec pools and
 // whatever per-process state the envelope keeps.
 
+type vfC17Baseline struct {
+	code int
+	raw  []byte
+}
+
+var vfC17Baselines = map[string]vfC17Baseline{}
+
 var vfC17Hook func(point string)
 
 func vfC17Point(p string) {
@@ -589,7 +600,23 @@ func TestVerif_C17(t *testing.T) {
 		// explorer's "no tokens" header is not sent at all
 		sendCustom, sendStandard := custom != "", standard != ""
 
-		bcode, bhdr, raw, bp := vfC17Do(h, src, "", "", false, false)
+		// The uncompressed body: the same request without accept headers. It is a
+		// pure function of (level, source), so a clean answer (no panic, no
+		// encoding header) is computed once per process and reused; anything else
+		// is recomputed every time so that a failure reproduces on replay.
+		bkey := fmt.Sprintf("%d/%s", level, src.name)
+		var bcode int
+		var bhdr http.Header
+		var raw []byte
+		var bp any
+		if b, ok := vfC17Baselines[bkey]; ok {
+			bcode, bhdr, raw = b.code, http.Header{}, b.raw
+		} else {
+			bcode, bhdr, raw, bp = vfC17Do(h, src, "", "", false, false)
+			if bp == nil && bhdr.Get(contentEncodingHeader) == "" && bhdr.Get(customContentEncodingHeader) == "" {
+				vfC17Baselines[bkey] = vfC17Baseline{bcode, append([]byte{}, raw...)}
+			}
+		}
 		code, hdr, body, p := vfC17Do(h, src, custom, standard, sendCustom, sendStandard)
 		if bp != nil || p != nil {
 			x.Failf("C17:server:panic:"+src.name, "panic %v / %v", bp, p)
